@@ -193,7 +193,12 @@ func detectGitPath(path string, depth int) (string, error) {
 				if strings.HasPrefix(dotContent, "gitdir:") {
 					// This is a submodule parent path link. Strip the prefix, clean the string of whitespace just to
 					// be safe, and return
-					dotContent = strings.TrimSpace(strings.TrimPrefix(dotContent, "gitdir: "))
+					dotContent = strings.TrimSpace(strings.TrimPrefix(dotContent, "gitdir:"))
+					// like git itself: a relative link is relative to the directory that holds the .git file,
+					// not to the current directory
+					if !filepath.IsAbs(dotContent) {
+						dotContent = filepath.Join(path, dotContent)
+					}
 					p, err := detectGitPath(dotContent, depth+1)
 					if err != nil {
 						return "", fmt.Errorf(".git gitdir error: %w", err)
